@@ -411,6 +411,13 @@ pub fn sets(ctx: &Ctx) -> Vec<CaseSet> {
                     }
                     let e = *rng.pick::<&str>(&["400", "-400", "4000", "-4000", "2147483647", "-2147483647", "2147483640", "-2147483640", "2147483648", "-2147483648", "9999999999999", "-9999999999999", "99999999999999999999999", "-99999999999999999999999", "0000400"]);
                     let m = *rng.pick::<&str>(&["1", "0", "0.0", "1.5", "123456789", "-1", "-0", "0.000001", "00", "100000000000000000000000", "0.01", "0.000000000000000000001"]);
+                    if break_out.is_none() && rng.chance(1, 4) {
+                        // exponent digits padded with leading zeros (any number of them)
+                        let k = rng.range(1, 30);
+                        let small = rng.below(320);
+                        let sign = *rng.pick(&["", "-", "+"]);
+                        break_out = Some(format!("{}e{}{}{}", m, sign, "0".repeat(k), small));
+                    }
                     match break_out.take() {
                         Some(t) => t,
                         None => format!("{}e{}", m, e),
@@ -427,6 +434,16 @@ pub fn sets(ctx: &Ctx) -> Vec<CaseSet> {
                     let m = rng.next_u64() >> rng.range(11, 63);
                     let e = *rng.pick(&[-23i64, -22, -21, 21, 22, 23, 0, 1, -1]);
                     format!("{}e{}", m, e)
+                }
+                6 if rng.bool() => {
+                    // integer part 0 and a fraction with many leading zeros (no exponent, or one that brings it back)
+                    let k = rng.range(1, 45);
+                    let d = { let n_ = rng.range(1, 25); random_digits(rng, 10, n_) };
+                    match rng.below(3) {
+                        0 => format!("0.{}{}", "0".repeat(k), d),
+                        1 => format!("-0.{}{}e{}", "0".repeat(k), d, k + rng.below(5)),
+                        _ => format!("{}.{}{}", "0".repeat(rng.range(1, 4)), "0".repeat(k), d),
+                    }
                 }
                 6 => {
                     // zero in many spellings
